@@ -29,6 +29,7 @@ func runC10(c *Ctx) {
 	ruleHandshakeWatchdog(c, p)
 	rulePacketDeadline(c, p, "C10.deadline")
 	ruleDeadlineDisarmed(c, p, "C10.disarm")
+	ruleTimeoutSentinel(c, p, "C10.sentinel")
 	ruleNoLockAcrossIO(c, p, "C10.lock-io")
 	ruleCloseMarks(c, p, "C10.close-marks")
 	c.R.Assumptions = append(c.R.Assumptions,
@@ -861,4 +862,117 @@ func ruleNoLockAcrossIO(c *Ctx, p *core.Program, rule string) {
 		}
 	}
 	c.R.Floor(rule, cfg, n, 2)
+}
+
+// ---- sentinel (C10 / C04): ReadTimeout's non-positive values never become a duration
+func ruleTimeoutSentinel(c *Ctx, p *core.Program, rule string) {
+	c.R.Rule(rule, "Options.ReadTimeout has sentinel values (0 = default before Connect, NoTimeout = -1): wherever client code turns a value derived from Client.readTimeout into a timeout or deadline (context.WithTimeout, Time.Add) the value flows there only from a block guarded by a comparison that excludes -1 and 0 and admits 1 (evaluated on the three values) - `min(1s, readTimeout)` with NoTimeout gives an already expired context, and the Cancel packet is never written")
+	cfg := p.Cfg.Name
+	isTOLoad := func(x ssa.Value) bool { return strings.HasSuffix(core.FieldOrigin(x, 0), ".readTimeout") }
+	isTO := func(v ssa.Value) bool { return core.DependsOn(v, isTOLoad, false) }
+	positiveAt := func(fn *ssa.Function, blk *ssa.BasicBlock) bool {
+		for _, h := range fn.Blocks {
+			ifi, ok := h.Instrs[len(h.Instrs)-1].(*ssa.If)
+			if !ok {
+				continue
+			}
+			bo, ok := ifi.Cond.(*ssa.BinOp)
+			if !ok {
+				continue
+			}
+			var k int64
+			var left bool
+			if kv, okc := core.ConstInt(bo.Y); okc && isTO(bo.X) {
+				k, left = kv, true
+			} else if kv, okc := core.ConstInt(bo.X); okc && isTO(bo.Y) {
+				k, left = kv, false
+			} else {
+				continue
+			}
+			for succ := 0; succ < 2; succ++ {
+				sb := h.Succs[succ]
+				if h.Succs[0] == h.Succs[1] || len(sb.Preds) != 1 || !(sb == blk || sb.Dominates(blk)) {
+					continue
+				}
+				taken := func(x int64) bool {
+					a, b := x, k
+					if !left {
+						a, b = k, x
+					}
+					var t bool
+					switch bo.Op {
+					case token.GTR:
+						t = a > b
+					case token.GEQ:
+						t = a >= b
+					case token.LSS:
+						t = a < b
+					case token.LEQ:
+						t = a <= b
+					case token.EQL:
+						t = a == b
+					case token.NEQ:
+						t = a != b
+					}
+					return t == (succ == 0)
+				}
+				if !taken(-1) && !taken(0) && taken(1) {
+					return true
+				}
+			}
+		}
+		return false
+	}
+	n := 0
+	for _, fn := range p.Funcs() {
+		pk := pkgOf(fn)
+		if pk == nil || pk.Path() != core.PkgCh || isServerSide(fn) || fn.Blocks == nil {
+			continue
+		}
+		for _, call := range core.Calls(fn) {
+			f := core.CalleeFunc(call)
+			if f == nil {
+				continue
+			}
+			var d ssa.Value
+			args := call.Common().Args
+			switch {
+			case core.IsFunc(f, "context", "WithTimeout") && len(args) == 2:
+				d = args[1]
+			case core.IsMethod(f, "time", "Time", "Add") && len(args) == 2:
+				d = args[1]
+			default:
+				continue
+			}
+			if !isTO(d) {
+				continue
+			}
+			n++
+			key := core.CallKey(fn, call) + "/sentinel"
+			ok := true
+			var check func(v ssa.Value, blk *ssa.BasicBlock, depth int)
+			check = func(v ssa.Value, blk *ssa.BasicBlock, depth int) {
+				if depth > 4 || !isTO(v) {
+					return
+				}
+				if ph, isPhi := stripConv(v).(*ssa.Phi); isPhi {
+					for i, e := range ph.Edges {
+						check(e, ph.Block().Preds[i], depth+1)
+					}
+					return
+				}
+				if !positiveAt(fn, blk) {
+					ok = false
+				}
+			}
+			check(d, call.Block(), 0)
+			if ok {
+				c.R.Ok(rule, key, cfg, p.Pos(call.Pos()), "the read timeout reaches this duration only when it is positive")
+			} else {
+				c.R.Bad(rule, key, cfg, p.Pos(call.Pos()), "a duration derived from Client.readTimeout is used without a test that excludes NoTimeout (-1) and 0: the timeout or deadline lies in the past, so the guarded operation (here possibly the Cancel packet) is skipped")
+			}
+		}
+	}
+	c.R.Count("durations derived from the read timeout["+cfg+"]", n)
+	c.R.Floor(rule, cfg, n, 1)
 }
